@@ -68,6 +68,8 @@ def gen_batch(arg):
     for n in range(arg["count"]):
         opts = {"nstmts": rnd.randint(3, 9), "depth": rnd.choice([1, 2, 3]),
                 "exitcycle": rnd.random() < 0.4,
+                "named": rnd.random() < 0.7,
+                "same_operands": rnd.random() < 0.5,
                 "where_hazard": rnd.choice([None, None, "mixed_notation",
                                             "stride", "elem_operand"])}
         unit, g = fgen.kernel_unit(rnd, opts)
